@@ -48,6 +48,12 @@ func (c *context) ParseGo() bool {
 		return false
 	}
 
+	if len(pkgs) == 0 {
+		// E.g. the directory is not inside a Go module.
+		c.Errs.GeneralErrorf("no Go package found in %v", c.Dir)
+		return false
+	}
+
 	c.GoPackagePath = pkgs[0].PkgPath
 
 	if len(pkgs[0].Errors) != 0 {
